@@ -31,6 +31,33 @@ def CleanCfg (cfg : Cfg) : Prop :=
   (∀ m ∈ msgs cfg, clean m = true) ∧ (∀ v ∈ cfg.values, clean v = true) ∧
   (∀ s, Seg.lit s ∈ cfg.fmt → clean s = true)
 
+/-- the executable decider of `CleanCfg` -/
+theorem cleanCfgB_iff (cfg : Cfg) : cleanCfgB cfg = true ↔ CleanCfg cfg := by
+  have hfmt : cfg.fmt.all cleanSegB = true ↔ ∀ s, Seg.lit s ∈ cfg.fmt → clean s = true := by
+    rw [List.all_eq_true]
+    constructor
+    · intro h s hs
+      exact h _ hs
+    · intro h x hx
+      cases x with
+      | lit s => exact h s hx
+      | indicator => rfl
+      | message => rfl
+  have hc : ∀ l : List Str, l.all cleanB = true ↔ ∀ m ∈ l, clean m = true := by
+    intro l
+    rw [List.all_eq_true]
+    exact Iff.rfl
+  unfold cleanCfgB CleanCfg
+  rw [Bool.and_eq_true, Bool.and_eq_true, hfmt, hc, hc, and_assoc]
+
+/-- **The hypotheses are checked on the real configurations.**  The driver evaluates `cleanCfgB` and
+`hasValuesB` on the configuration of every correspondence case - the one the REAL `ProgressIndicator` was
+constructed from and run with - (answer key `wf` of `c19.run` / `c19.manual`, compared with `true`); they
+decide exactly the two hypotheses `CleanCfg cfg` and `0 < cfg.values.length` of the theorems below. -/
+theorem wf_decides (cfg : Cfg) :
+    (cleanCfgB cfg = true ∧ hasValuesB cfg = true) ↔ (CleanCfg cfg ∧ 0 < cfg.values.length) := by
+  rw [cleanCfgB_iff, hasValuesB, decide_eq_true_eq]
+
 theorem frameText_clean {cfg : Cfg} (hc : CleanCfg cfg) (t : Str) (h : FrameText cfg t) : clean t = true := by
   obtain ⟨i, m, hm, rfl⟩ := h
   exact clean_render _ _ _ (clean_value cfg i hc.2.1) (hc.1 m hm) hc.2.2
@@ -81,6 +108,19 @@ theorem frame_shape_auto (cfg : Cfg) (hv : 0 < cfg.values.length) (s : Schedule)
   | frame text hf =>
     obtain ⟨i, m, hm, rfl⟩ := hf
     exact .inr ⟨value cfg i, value_mem cfg i hv, m, hm, rfl⟩
+
+/-- `no_mixture` with its two hypotheses replaced by the deciders the correspondence evaluates on every case. -/
+theorem no_mixture_decided (cfg : Cfg) (hw : cleanCfgB cfg = true ∧ hasValuesB cfg = true) (s : Schedule)
+    (p : List (Tid × Str)) (hp : p <+: trace cfg s) :
+    ((termOf (p.map (·.2))).line = [] ∨ isFrame cfg (termOf (p.map (·.2))).line = true) ∧
+    (∀ l ∈ (termOf (p.map (·.2))).lines, l = [] ∨ isFrame cfg l = true) :=
+  no_mixture cfg ((wf_decides cfg).mp hw).1 ((wf_decides cfg).mp hw).2 s p hp
+
+/-- `frame_shape_auto` with the decider. -/
+theorem frame_shape_auto_decided (cfg : Cfg) (hw : hasValuesB cfg = true) (s : Schedule) :
+    ∀ w ∈ trace cfg s, w.2 = nl ∨
+      ∃ v ∈ cfg.values, ∃ m ∈ msgs cfg, w.2 = frameBytes cfg (render cfg.fmt v m) :=
+  frame_shape_auto cfg (by simpa [hasValuesB] using hw) s
 
 /-- **Always joined.**  Under every schedule, however main has left the block - normally, by an `Exception`,
 a `KeyboardInterrupt`, `SystemExit` or any other `BaseException` raised in the body - the spinner's pc is `done`:
@@ -163,6 +203,23 @@ theorem spinner_stops_within (cfg : Cfg) (s s' : Schedule) (hf : (run cfg s init
     rw [h1] at h2; cases h2
   · exact Nat.le_trans (rank_le_four cfg s) h4
 
+/-- **`join` cannot block for ever (1, sharp form).**  The same with the exact budget: `rank` of the spinner's
+program counter (1 at the `is_set` test, 2 asleep or at the start, 4 before a frame write) instead of the
+uniform 4.  `spinner_stops_within` follows from it by `rank_le_four`; in the code as it is no reachable
+configuration with the event set lets the spinner take 4 enabled steps (it is `done` after at most 3), so
+the hypothesis `4 ≤ effSpin …` of `spinner_stops_within` can only be read contrapositively ("a spinner that is
+not done has taken fewer than 4 steps since the event was set"), whereas this form has instances (below). -/
+theorem spinner_stops_within_rank (cfg : Cfg) (s s' : Schedule) (hf : (run cfg s init).flag = true)
+    (hr : rank (run cfg s init).spin ≤ effSpin .now cfg s' (run cfg s init)) :
+    (run cfg s' (run cfg s init)).spin = .done := by
+  have hi := (reach_inv cfg s).1
+  apply spin_done_within .now cfg s' _ hf
+  · intro hn
+    have h1 := hi.spawned.mpr hn
+    have h2 := afterSet_not_beforeSpawn _ (hi.flagIff.mp hf)
+    rw [h1] at h2; cases h2
+  · exact hr
+
 /-- **`join` cannot block for ever (2).**  While main is inside the block some choice makes progress: main or
 the spinner is enabled, or everybody waits for the clock and advancing it enables one of them.  In particular a
 main thread blocked in `join` always leaves the spinner (or the clock) able to move. -/
@@ -236,6 +293,14 @@ theorem end_message_shown (cfg : Cfg) (hc : CleanCfg cfg) (s : Schedule)
     rw [feed_plain _ _ hce, feed_nl]
     exact ⟨rfl, lines, by simp⟩
 
+/-- `end_message_shown` with the decider. -/
+theorem end_message_shown_decided (cfg : Cfg) (hw : cleanCfgB cfg = true) (s : Schedule)
+    (h : (run cfg s init).main = .exited .normal) :
+    (termOf ((trace cfg s).map (·.2))).line = [] ∧
+    ∃ ls, (termOf ((trace cfg s).map (·.2))).lines =
+      ls ++ [render cfg.fmt (value cfg 0) cfg.endMsg] ++ (if cfg.ansi then [] else [[]]) :=
+  end_message_shown cfg ((cleanCfgB_iff cfg).mp hw) s h
+
 /-! ### Manual mode (no spinner thread) -/
 
 /-- **Advance is throttled.**  For every sequence of calls and clock advances: a redraw made by `advance` comes
@@ -297,6 +362,17 @@ theorem frame_shape (cfg : Cfg) (hv : 0 < cfg.values.length) (c : MSt) (op : MOp
       · exact .inl ⟨rfl, rfl⟩
       · exact .inr ⟨_, hval _, rfl⟩
   | tick dt => exact ⟨[], by simp [mstep], by simp, rfl⟩
+
+/-- `frame_shape` with the decider. -/
+theorem frame_shape_decided (cfg : Cfg) (hw : hasValuesB cfg = true) (c : MSt) (op : MOp) :
+    ∃ new, (mstep cfg c op).1.out = new ++ c.out ∧
+      (∀ e ∈ new, (e.kind = .newline ∧ e.bytes = nl) ∨
+        ∃ v ∈ cfg.values, e.bytes = frameBytes cfg (render cfg.fmt v (mstep cfg c op).1.message)) ∧
+      (mstep cfg c op).1.message =
+        (match op, (mstep cfg c op).2 with
+         | .start m, none | .setMessage m, none | .finish m _, none => m
+         | _, _ => c.message) :=
+  frame_shape cfg (by simpa [hasValuesB] using hw) c op
 
 /-! ### Proved counterexamples -/
 namespace Counter
@@ -390,5 +466,77 @@ example : CleanCfg (Counter.cfg1 [.setMessage ['b']]) := by
   intro s hs
   simp only [Counter.cfg1, List.mem_cons, Seg.lit.injEq, List.not_mem_nil, or_false, reduceCtorEq, false_or] at hs
   rcases hs with rfl | rfl <;> decide
+
+/-! Every theorem with hypotheses, applied to a concrete run that discharges all of them. -/
+
+def demoCfg : Cfg := Counter.cfg1 [.setMessage ['b'], .work 100]
+def excCfg : Cfg := Counter.cfg1 [.raise .exception]
+def excSchedule : Schedule := [.main, .main, .main, .spin, .main, .main, .spin, .spin, .main]
+
+/-- the deciders the correspondence evaluates hold for the demo configuration -/
+example : cleanCfgB demoCfg = true ∧ hasValuesB demoCfg = true := by decide
+
+/-- `no_mixture` on the whole trace of the demo run -/
+example : (termOf ((trace demoCfg demoSchedule).map (·.2))).line = [] ∨
+    isFrame demoCfg (termOf ((trace demoCfg demoSchedule).map (·.2))).line = true :=
+  (no_mixture_decided demoCfg (by decide) demoSchedule _ (List.prefix_refl _)).1
+
+/-- `frame_shape_auto` -/
+example : ∀ w ∈ trace demoCfg demoSchedule, w.2 = nl ∨
+    ∃ v ∈ demoCfg.values, ∃ m ∈ msgs demoCfg, w.2 = frameBytes demoCfg (render demoCfg.fmt v m) :=
+  frame_shape_auto_decided demoCfg (by decide) demoSchedule
+
+/-- `always_joined`, normal exit and exception -/
+example : (run demoCfg demoSchedule init).spin = .done := always_joined demoCfg demoSchedule .normal (by decide)
+example : (run excCfg excSchedule init).spin = .done :=
+  always_joined excCfg excSchedule (.raised .exception) (by decide)
+
+/-- `every_exit_is_handled` -/
+example : Outcome.raised .exception = .normal ∨ ∃ k, Outcome.raised .exception = .raised k :=
+  every_exit_is_handled excCfg excSchedule _ (by decide)
+
+/-- `always_joined_handled` in the pre-fix variant D32 (an `Exception` is caught there, too) -/
+example : (runG .d32 excCfg excSchedule init).spin = .done :=
+  always_joined_handled .d32 excCfg excSchedule (.raised .exception) (by decide) (.inr ⟨_, rfl⟩)
+
+/-- `spinner_stops_within_rank`: empty body, main sets the event while the spinner has not run yet (rank 2);
+two spinner steps later it is done -/
+example : (run (Counter.cfg1 []) [.spin, .spin] (run (Counter.cfg1 []) [.main, .main, .main, .main] init)).spin = .done :=
+  spinner_stops_within_rank (Counter.cfg1 []) [.main, .main, .main, .main] [.spin, .spin] (by decide) (by decide)
+
+/-- `never_stuck`: main blocked in `join` -/
+example : enabledMain (runG .now (Counter.cfg1 []) (List.replicate 7 .main) init) = true ∨
+    enabledSpin (runG .now (Counter.cfg1 []) (List.replicate 7 .main) init) = true ∨
+    ∃ dt, enabledMain (stepG .now (Counter.cfg1 []) (runG .now (Counter.cfg1 []) (List.replicate 7 .main) init) (.tick dt)) = true ∨
+          enabledSpin (stepG .now (Counter.cfg1 []) (runG .now (Counter.cfg1 []) (List.replicate 7 .main) init) (.tick dt)) = true :=
+  never_stuck .now (Counter.cfg1 []) (List.replicate 7 .main) (by
+    intro o h
+    have e : (runG .now (Counter.cfg1 []) (List.replicate 7 .main) init).main = .finJoin := by decide
+    rw [e] at h
+    cases h)
+
+/-- `end_message_last`, `end_message_shown` -/
+example : ∃ pre, trace demoCfg demoSchedule =
+    pre ++ [(Tid.main, frameBytes demoCfg (render demoCfg.fmt (value demoCfg 0) demoCfg.endMsg)), (Tid.main, nl)] :=
+  end_message_last demoCfg demoSchedule (by decide)
+
+example : (termOf ((trace demoCfg demoSchedule).map (·.2))).line = [] ∧
+    ∃ ls, (termOf ((trace demoCfg demoSchedule).map (·.2))).lines =
+      ls ++ [render demoCfg.fmt (value demoCfg 0) demoCfg.endMsg] ++ (if demoCfg.ansi then [] else [[]]) :=
+  end_message_shown_decided demoCfg (by decide) demoSchedule (by decide)
+
+/-- `advance_throttled`: the newest event of the manual run below is a redraw made by `advance` (at 200 ms) -/
+def manCfg : Cfg := { Counter.cfg1 [] with interval := 100 }
+def manOps : List MOp := [.start ['a'], .tick 100, .advance, .tick 99, .advance, .tick 1, .advance]
+
+example : (mrun manCfg manOps MSt.init).out.map (fun e => (e.kind, e.time)) =
+    [(.advance, 200), (.advance, 100), (.start, 0)] := by decide
+
+example : ∀ e l2, (mrun manCfg manOps MSt.init).out = e :: l2 → e.kind = .advance →
+    ∀ e' ∈ l2, (e'.kind = .start ∨ e'.kind = .advance) → e'.time + manCfg.interval ≤ e.time :=
+  fun e l2 h he => advance_throttled manCfg manOps [] l2 e (by simpa using h) he
+
+/-- `frame_shape`: its only hypothesis -/
+example : hasValuesB manCfg = true := by decide
 
 end Clikit.Props.C19
